@@ -504,6 +504,10 @@ fn big_names() -> Vec<Vec<u8>> {
         if i == 123 {
             n = Vec::new();
         }
+        // one name of 5000 bytes (longer than any block a bounded scan would use)
+        if i == 124 {
+            n = (0..5000usize).map(|j| b'a' + ((j * 7 + j / 26) % 26) as u8).collect();
+        }
         // control bytes in front of the terminator (a word-at-a-time NUL search can mistake them),
         // names of every length 1..=17 ending in 0x01 / 0x7f / 0x80 / 0xff
         if (200..268).contains(&i) {
